@@ -42,17 +42,23 @@ theorem syncFifoBuffered_step (depth : Nat) (z : Tok α) (s : FBState α) (a d :
 
 /-! ### Gate -/
 
-def gateRel (_ : Unit) (a : List (Tok (α × Bool))) (d : List (Tok α)) : Prop :=
-  d = (a.filter (·.data.2)).map (mapTok (·.1))
+/-- Delivered = the tokens accepted while enabled; without `sink_ready_when_disabled` nothing is ever accepted
+    while disabled. -/
+def gateRel (srd : Bool) (_ : Unit) (a : List (Tok (α × Bool))) (d : List (Tok α)) : Prop :=
+  d = (a.filter (·.data.2)).map (mapTok (·.1)) ∧ (srd = false → ∀ t ∈ a, t.data.2 = true)
 
 theorem gate_step (srd : Bool) (z : α) (s : Unit) (a : List (Tok (α × Bool))) (d : List (Tok α))
-    (i : In (α × Bool)) (h : gateRel s a d) :
-    gateRel ((gate srd z).step s i) (a ++ (gate srd z).accNow s i) (d ++ (gate srd z).delNow s i) := by
+    (i : In (α × Bool)) (h : gateRel srd s a d) :
+    gateRel srd ((gate srd z).step s i) (a ++ (gate srd z).accNow s i) (d ++ (gate srd z).delNow s i) := by
   obtain ⟨iv, ⟨⟨td, te⟩, tf, tl⟩, ir⟩ := i
   unfold gateRel at *
+  obtain ⟨h, h2⟩ := h
   subst h
   cases iv <;> cases ir <;> cases te <;> cases srd <;>
-    simp [gate, Elem.accNow, Elem.delNow, Elem.out, mapTok]
+    simp_all [gate, Elem.accNow, Elem.delNow, Elem.out, mapTok]
+  rintro t (ht | rfl)
+  · exact h2 t ht
+  · rfl
 
 /-! ### Cast and other combinational data maps -/
 
